@@ -135,6 +135,23 @@ pub fn check_case(case: &Case) -> CaseResult {
             _ => {}
         }
     }
+    // The dying constructor applies the same rule (rejections sampled: a caught panic is slow).
+    if want || (base ^ floor_ms as u64) % 16 == 0 {
+        match (panics::catch(|| VouchedTime::new_or_die(local, base, voucher)), want) {
+            (Ok(vt), true) => {
+                let ok = panics::catch(|| {
+                    vt.check_or_die();
+                    vt.get_local_time()
+                });
+                if !matches!(ok, Ok(t) if t == local) {
+                    return Err(Fail::new("new_or_die:value", format!("new_or_die built a value that fails check_or_die / get_local_time for {desc}")));
+                }
+            }
+            (Err(_), false) => {}
+            (Ok(_), false) => return Err(Fail::new(sig_for_accept(), format!("VouchedTime::new_or_die accepted {desc}"))),
+            (Err(p), true) => return Err(Fail::new("rejects:inside-window", format!("VouchedTime::new_or_die panicked for {desc}: {}", p.describe()))),
+        }
+    }
     let near_edge = (diff + BACKWARD_MS).abs() <= 2 || (diff - FORWARD_MS).abs() <= 2;
     let near_epoch = local_ns.abs() <= 3_000_000_000;
     Ok(Outcome::new(near_edge || base >= 1u64 << 63 || near_epoch)
@@ -184,6 +201,31 @@ pub fn check_now(case: &NowCase) -> CaseResult {
         (Err(_), false) => {}
         (Ok(_), false) => return Err(Fail::new("now:accepts", format!("now() accepted a base time {} ms away from the clock (voucher ok: {})", case.diff, case.voucher_ok))),
         (Err(e), true) => return Err(Fail::new("now:rejects", format!("now() rejected a base time {} ms away from the clock: {e}", case.diff))),
+    }
+    // now_or_die: the same rule against its own reading of the clock.
+    let seen2 = std::cell::Cell::new(None);
+    let r2 = panics::catch(|| {
+        VouchedTime::now_or_die(|now: time::OffsetDateTime| {
+            let ns = now.unix_timestamp_nanos();
+            let base = (ns.div_euclid(1_000_000) - case.diff as i128).clamp(0, u64::MAX as i128) as u64;
+            seen2.set(Some((ns, base, time::PrimitiveDateTime::new(now.date(), now.time()))));
+            let v = if case.voucher_ok { VOUCH.vouch(base) } else { VOUCH.vouch(base ^ 1) };
+            Ok((base, v))
+        })
+    });
+    let Some((ns2, base2, local2)) = seen2.get() else {
+        return Err(Fail::new("now:provider-not-called", "now_or_die() did not call the base time provider"));
+    };
+    let want2 = case.voucher_ok && window_ok(ns2, base2);
+    match (r2, want2) {
+        (Ok(vt), true) => {
+            if vt.get_local_time() != local2 {
+                return Err(Fail::new("now:local-time", "now_or_die() reports a local time different from the clock value it gave the provider"));
+            }
+        }
+        (Err(_), false) => {}
+        (Ok(_), false) => return Err(Fail::new("now:accepts", format!("now_or_die() accepted a base time {} ms away from the clock (voucher ok: {})", case.diff, case.voucher_ok))),
+        (Err(p), true) => return Err(Fail::new("now:rejects", format!("now_or_die() panicked for a base time {} ms away from the clock: {}", case.diff, p.describe()))),
     }
     let near = (case.diff as i128 + BACKWARD_MS).abs() <= 2 || (case.diff as i128 - FORWARD_MS).abs() <= 2;
     Ok(Outcome::new(near).label_if(want, "accepted").label_if(!want, "rejected"))
